@@ -161,6 +161,9 @@ def collide_cases(ctx, opts, tag):
             u = ctx.rng.choice(['1', '3', '15'])
             ops += [f"P~{u}:{A}~0~U~~", f"P~{u}:{B}~0~U~~", f"R~{u}:{A}~{u}:{B}", f"P~{u}:{A.lower()}~0~U~~", f"R~{u}:{A}~{u}:{B.lower()}", f"L~{u}:{B.lower()}", f"U~{u}:{B.lower()}", f"P~{C}~0~U~~", f"R~{u}:{A}~{u}:{C}", f"R~{u}:{C}~{u}:{A}", f"P~{u}:{C}~0~U~~",
                     f"R~{C}~{B}", f"D~{u}:{B}", f"R~{u}:{A}~{u}:{B}"]
+        if fs == 'fat' and opts != '-':      # (the abstract model has no label: oracle stream only)
+            # the volume label (VOLLBL on this kind) is no file: it cannot be deleted, renamed or locked, and its name stays taken
+            ops += ["D~VOLLBL", "R~VOLLBL~OTHER", "L~VOLLBL", "P~VOLLBL~0~U~~", "D~VOLLBL"]
         out.append(f"fsh {tag}{i} {fs} {lab} {opts} {';'.join(ops)}")
     return out
 
@@ -206,6 +209,17 @@ def subdir_cases(ctx, opts, tag):
                     ops += [f"P~D1/SUB/IN{ext}~0-1~U~~~v", f"D~D1/F0{ext}", f"P~D1/SUB/IN2{ext}~0~U~~~v"]
                 out.append(f"fsh {tag}{k} {fs} {lab} {opts} {';'.join(ops)}")
                 k += 1
+        # a directory that has grown beyond its first unit is emptied and deleted, its space used again
+        n = first - used0 + 2
+        ops = ["M~D1"] + [f"P~D1/F{i}{ext}~0~U~~~v" for i in range(n)] + [f"P~KEEP{ext}~0-1~U~~~v"] + [f"D~D1/F{i}{ext}" for i in range(n)]
+        ops += ["D~D1", f"P~AFTER{ext}~0-3~U~~~v", "M~D1", f"P~D1/AGAIN{ext}~0~U~~~v"]
+        out.append(f"fsh {tag}{k} {fs} {lab} {opts} {';'.join(ops)}")
+        k += 1
+        # a file is not a directory: nothing can be stored, created, renamed or deleted below it
+        ops = [f"P~PLAIN{ext}~0~U~~~v", f"P~PLAIN{ext}/B{ext}~0~U~~", f"M~PLAIN{ext}/SUB", "M~D1", f"P~D1/IN{ext}~0~U~~~v", f"P~D1/IN{ext}/DEEP{ext}~0~U~~",
+               f"R~PLAIN{ext}/B{ext}~C{ext}", f"D~PLAIN{ext}/B{ext}", f"L~D1/IN{ext}/X"]
+        out.append(f"fsh {tag}{k} {fs} {lab} {opts} {';'.join(ops)}")
+        k += 1
     return out
 
 
@@ -283,6 +297,43 @@ def prodos_tree_stream(ctx):
                   trivial=lambda toks, out: out is None or out.startswith('refused'))
 
 
+def cpm_extent_stream(ctx):
+    """CP/M directory entries of one file: chunk sets at every entry and logical-extent boundary, with holes of whole entries, and ends
+    of file at every record position; extent numbers, record counts, pointers, the chunk indices and the end of file that get reports
+    must equal Fs/CpmExtents.v (disk kinds with and without an extent mask, one- and two-byte pointers, CP/M 2 and 3)"""
+    rng = ctx.rng
+    quick = ctx.tier == 'quick'
+    kinds = [('do:5.25in', '5.25in'), ('imd:5.25in-osb-sd', '5.25in-osb-sd'), ('imd:5.25in-kay4', '5.25in-kay4'), ('imd:8in-trs80', '8in-trs80'), ('imd:8in', '8in')]
+    info = fw.run_lines(fw.HARNESS_BIN, [f"dpbinfo d{i} {k}" for i, (_, k) in enumerate(kinds)], shards=1)
+    lines = []
+    n = 0
+    for i, (lab, k) in enumerate(kinds):
+        try:
+            bsh, off, dsm, drm, exm, spt = [int(x) for x in info.get(f"d{i}", '').split()]
+        except ValueError:
+            continue
+        bs = 128 << bsh
+        spx = 16 if dsm < 256 else 8
+        slx = spx // (exm + 1)
+        sets = [[], [0], [0, 1], list(range(slx)), list(range(slx + 1)), list(range(spx)), list(range(spx + 1)), list(range(2 * spx)), list(range(2 * spx + 1)),
+                [spx], [0, spx], [0, 2 * spx + 1], [slx], [0, slx], [spx - 1], [0, spx - 1, spx], [3 * spx + slx], list(range(3 * spx + slx + 1))]
+        for _ in range(4 if quick else 60):
+            top = rng.choice([spx, 2 * spx, 4 * spx])
+            sets.append(sorted({rng.randrange(top) for _ in range(rng.choice([1, 2, 5]))}))
+        for cs in sets:
+            if len(cs) > dsm - 8:
+                continue
+            end = (max(cs) + 1) if cs else 0
+            for tail in ([1, 128, bs] if quick else [1, 127, 128, 129, bs - 128, bs - 1, bs]):
+                eof = (end - 1) * bs + tail if cs else 0
+                for v3 in ([0] if (quick and n % 3) else [0, 1]):
+                    spec = ','.join(str(c) for c in cs) if cs else '-'
+                    lines.append(f"cpmext ce{n} {lab} {exm} {bs} {spx} {v3} {spec} {eof}")
+                    n += 1
+    fw.correspond(ctx, 'cpm-extents (extent numbers, record and byte counts, pointers of every directory entry, chunk indices and end of file of get, vs Fs/CpmExtents.v)', lines,
+                  trivial=lambda toks, out: out is None or out.startswith('refused'))
+
+
 def standard_run(ctx, pid, opts='r', lock_heavy=False, also=(), model_ok=True, n_oracle=None, n_corr=None):
     ctx.also_props = tuple(also)
     quick = ctx.tier == 'quick'
@@ -299,6 +350,8 @@ def standard_run(ctx, pid, opts='r', lock_heavy=False, also=(), model_ok=True, n
         run_correspondence(ctx, corr)
         if pid in ('C01', 'C03'):
             prodos_tree_stream(ctx)
+        if pid == 'C01':
+            cpm_extent_stream(ctx)
     oracle = corpus_cases(pid) + collide_cases(ctx, opts, 'oc') + bigfile_cases(ctx, opts, 'ob') + subdir_cases(ctx, opts, 'os') + (lockbig_cases(ctx, opts, 'ol') if lock_heavy else []) + dirfill_cases(ctx, opts, 'od') + slotfill_cases(ctx, opts, 'of') + exactfit_cases(ctx, opts, 'oe') + gen_cases(ctx, ALL_FS, n_o, opts, False, lock_heavy=lock_heavy, tag='o')
     out = run_oracle(ctx, pid, oracle, also=also)
     ctx.samples += [oracle[-1][:300] + ' -> ' + (out.get(oracle[-1].split()[1]) or '')[:300]]
